@@ -20,7 +20,7 @@ def run(ctx, rep):
         'weather, day stepping moves date and Julian Day together, and the values written are the candidate\'s same-key entries. '
         'Equality "to the second" is numeric: not decided.')
     rep.trusted = ['rustc MIR', 'chrono ordinal() in [1,366], leap_year()', 'RangeInclusive iterates lo, lo+1, ..., hi']
-    pa = W.get(ctx)
+    pa = W.get(ctx, rep)
     eph_ctors = set(ctx.role('eph_ctors'))
     pols = [p for p in W.classify_policies(ctx) if p.startswith('NearestGoodDay')]
     rep.floor('nearest-good-day policies', len(pols), 2)
